@@ -38,6 +38,7 @@ def gen_pairs(ctx):
              ["send", dut, 3, 4], ["send_invalid", 0o7], ["multicast", None, 8], ["multicast", 2, 24],
              ["multicast", 4, 60], ["node_address", dut], ["node_address", 0o41], ["multicast_level", (own + 1) % 5],
              ["multicast_level", own], ["multicast_level", 4], ["inject_fwd", absent, 70], ["inject_fwd", 0o11 if dut != 0o11 else 0, 1],
+             ["inject_two", 0o11 if dut != 0o11 else 0, 1, 193], ["inject_two", 0o2 if dut != 0o2 else 0o21, 70, 131],
              ["update"]]
         k = 0
         for a in T:
@@ -87,8 +88,10 @@ def gen_cases(ctx):
                     calls.append(["node_address", rng.choice([dut, rng.choice(absent), 0o7])])
                 elif r < 0.78:
                     calls.append(["multicast_level", rng.choice([0, 1, 2, 3, 4, -2, 8])])
-                elif r < 0.9:
+                elif r < 0.84:
                     calls.append(["inject_fwd", rng.choice(absent + nodes), rng.choice([1, 70, 148, 193])])
+                elif r < 0.9:
+                    calls.append(["inject_two", rng.choice(absent + nodes), rng.choice([1, 70]), rng.choice([193, 131, 5, 130])])
                 else:
                     calls.append(["update"])
             fault = rng.choice([None, None, "ack_loss", "netack_loss", "frag_loss"])
@@ -272,6 +275,14 @@ def _run_net(ctx, case, net):
             if c == "inject_fwd":
                 frm = 0o2 if call[1] != 0o2 else 0o3
                 nn.radio.inject_rx(2, net_ref.pack_header(frm, call[1], 99, call[2], 2) + b"fwd")
+                return o.update()
+            if c == "inject_two":
+                # two frames wait in the RX FIFO: one to pass along, then one that update() hands
+                # back to its caller (a NETWORK_ACK for this node / external data) or consumes
+                frm = 0o2 if call[1] != 0o2 else 0o3
+                me = o.node_address
+                nn.radio.inject_rx(2, net_ref.pack_header(frm, call[1], 98, call[2], 2) + b"fwd")
+                nn.radio.inject_rx(3, net_ref.pack_header(me if call[3] == 193 else frm, me, 97, call[3], 0) + b"second")
                 return o.update()
             if c == "update":
                 return o.update()
